@@ -6,4 +6,5 @@ if [ -n "$(git -C /repo status --porcelain)" ]; then echo "/repo not clean"; exi
 git -C /repo apply /verif/seeded/$N/patch.diff || exit 2
 ./check $P --tier $T > /tmp/seed_try_$N.log 2>&1; RC=$?
 git -C /repo checkout -- .
+/verif/tools/gen_tables.sh >/dev/null 2>&1   # coq/Gen back to the unchanged tree's tables
 echo "seed $N: check $P rc=$RC"; grep -E "^(monitor|VIOLATION|OK|KNOWN)" /tmp/seed_try_$N.log | head -6
